@@ -411,7 +411,7 @@ fn main() {
                         16 | 17 => call("copy", &a, &b),
                         18 => call_b("copy_b", &a, &b, [0o700, 0o640, 0o555][rng.gen_range(0..3)], 0, "", ["a", "d", "f", "aF", "F"][rng.gen_range(0..5)]),
                         19 | 20 => call("set_cwd", &a, ""),
-                        21 => call_m("chmod", &a, [0o755, 0o500, 0o644, 0o600, 0o777][rng.gen_range(0..5)], 0),
+                        21 => call_m("chmod", &a, [0o755, 0o500, 0o644, 0o600, 0o777, 0o464, 0o060, 0o575][rng.gen_range(0..8)], 0),
                         22 => call_m("chown", &a, rng.gen_range(1..5), rng.gen_range(1..5)),
                         23 => call_m("mkdir_m", &a, [0o700, 0o755, 0o511][rng.gen_range(0..3)], 0),
                         24 => call_m("mkfile_m", &a, [0o600, 0o644, 0o755][rng.gen_range(0..3)], 0),
